@@ -538,7 +538,7 @@ def opAeroStructCoupled : Op K := fun n a =>
     let mut forcesOut : Array (V3 K) := #[]
     let mut loadsOut : Array K := #[]
     let mut its := 0
-    for _ in [0:60] do
+    for _ in [0:200] do
       let d := disp
       let dispT : Pts K := fun j => ⟨at_ d (6*j), at_ d (6*j+1), at_ d (6*j+2)⟩
       let T : Nat → M3 K := fun j => transformationMatrix (⟨at_ d (6*j+3), at_ d (6*j+4), at_ d (6*j+5)⟩ : V3 K)
